@@ -28,6 +28,8 @@ pub mod ordered_hash_set;
 pub mod small_ordered_map;
 pub mod unordered_hash_map;
 pub mod unordered_hash_set;
+#[cfg(cairo_verif)]
+pub mod verif_par;
 
 #[cfg(feature = "std")]
 pub use heap_size::HeapSize;
